@@ -1,4 +1,87 @@
-(* C09 — theorems in progress; this file is replaced as they are proved *)
-From AB Require Import Check.WorldCheck.
-Theorem c09_placeholder : True. Proof. exact I. Qed.
-Print Assumptions c09_placeholder.
+(* C09 — idle expiry: property theorems (proofs live in Proofs/ExpireProofs.v). *)
+From AB Require Import World.Handlers World.Step Proofs.ExpireProofs.
+Open Scope Z_scope.
+
+(* The expire middleware, for every configuration, request, storage and starting state.
+   With nobody logged in it records nothing and hands the session on unchanged.  With a user
+   logged in and a stamp d in the session: if d + ExpireAfter <= now the session is expired —
+   it records exactly "delete all but the whitelist, delete uid, delete last_action" and
+   everything downstream sees only the whitelisted part of the session; if
+   now < d + ExpireAfter the session is alive — it records exactly one event, the stamp set
+   to now, and downstream sees the whole session.  So: expired iff stamp + ExpireAfter <= now.
+   It never records a cookie event. *)
+Theorem c09_expire_mw_spec : forall E h r h', expire_mw E h = (r, h') ->
+  (ahas k_uid (e_sess E) = false -> r = Ok (e_sess E) /\ h_sev h' = h_sev h) /\
+  (ahas k_uid (e_sess E) = true -> forall ds d,
+     alookup k_last_action (e_sess E) = Some ds -> zparse ds = Some d ->
+     (d + c_expire_after (e_cfg E) <= o_now (e_O E) ->
+        r = Ok (filter (fun kv => bmem (fst kv) (c_whitelist (e_cfg E))) (e_sess E)) /\
+        h_sev h' = h_sev h ++ [DelAll (bjoin ","%byte (c_whitelist (e_cfg E))); Del k_uid; Del k_last_action]) /\
+     (o_now (e_O E) < d + c_expire_after (e_cfg E) ->
+        r = Ok (e_sess E) /\ h_sev h' = h_sev h ++ [Put k_last_action (zdec (o_now (e_O E)))])) /\
+  h_cev h' = h_cev h.
+Proof. exact expire_mw_spec_lemma. Qed.
+Print Assumptions c09_expire_mw_spec.
+
+(* The same for a logged-in session that carries no stamp at all: the model reads the
+   missing stamp as "expired iff ExpireAfter <= 0"; the two outcomes are the same two. *)
+Theorem c09_expire_mw_no_stamp : forall E h r h', expire_mw E h = (r, h') ->
+  ahas k_uid (e_sess E) = true -> alookup k_last_action (e_sess E) = None ->
+  (c_expire_after (e_cfg E) <= 0 ->
+     r = Ok (filter (fun kv => bmem (fst kv) (c_whitelist (e_cfg E))) (e_sess E)) /\
+     h_sev h' = h_sev h ++ [DelAll (bjoin ","%byte (c_whitelist (e_cfg E))); Del k_uid; Del k_last_action]) /\
+  (0 < c_expire_after (e_cfg E) ->
+     r = Ok (e_sess E) /\ h_sev h' = h_sev h ++ [Put k_last_action (zdec (o_now (e_O E)))]).
+Proof. exact expire_mw_no_stamp_lemma. Qed.
+Print Assumptions c09_expire_mw_no_stamp.
+
+(* What the rest of the request sees of an expired session: a key outside the whitelist
+   reads as absent, a whitelisted key reads exactly as it does in the real session. *)
+Theorem c09_expired_view_hides : forall (wl : list bytes) (s : amap),
+  let v := filter (fun kv => bmem (fst kv) wl) s in
+  (forall k, bmem k wl = false -> alookup k v = None) /\
+  (forall k, bmem k wl = true -> alookup k v = alookup k s).
+Proof. exact expired_view_hides_lemma. Qed.
+Print Assumptions c09_expired_view_hides.
+
+(* In particular nobody is logged in, in that view, unless the application itself put the
+   user-id key on the whitelist. *)
+Theorem c09_expired_view_no_uid : forall (wl : list bytes) (s : amap),
+  bmem k_uid wl = false -> ahas k_uid (filter (fun kv => bmem (fst kv) wl) s) = false.
+Proof. exact expired_view_no_uid_lemma. Qed.
+Print Assumptions c09_expired_view_no_uid.
+
+(* One request in the vocabulary of the sequence statement: with a user and a stamp d, the
+   middleware keeps the session (its only event is the refreshed stamp) exactly when the
+   one-step survival test of the sequence statement below passes. *)
+Theorem c09_step_survives : forall E h r h' ds d, expire_mw E h = (r, h') ->
+  ahas k_uid (e_sess E) = true -> alookup k_last_action (e_sess E) = Some ds -> zparse ds = Some d ->
+  (survives (c_expire_after (e_cfg E)) d [o_now (e_O E)] = true <->
+   h_sev h' = h_sev h ++ [Put k_last_action (zdec (o_now (e_O E)))]).
+Proof. exact expire_mw_step_survives_lemma. Qed.
+Print Assumptions c09_step_survives.
+
+(* After such a request the store holds the new stamp, the stamp reads back as this
+   request's time, and the user id is untouched: the next request is measured from here. *)
+Theorem c09_refresh_jar : forall (j : amap) (now : Z), Z.abs now < 10 ^ 40 ->
+  let j' := apply_events j [Put k_last_action (zdec now)] in
+  alookup k_last_action j' = Some (zdec now) /\ zparse (zdec now) = Some now /\
+  alookup k_uid j' = alookup k_uid j.
+Proof. exact expire_refresh_jar_lemma. Qed.
+Print Assumptions c09_refresh_jar.
+
+(* Sequences.  [survives E t0 ts] replays the middleware's decision over requests at times
+   ts starting from stamp t0 (each surviving request moves the stamp to its own time);
+   [gaps_below E t0 ts] says every gap between consecutive instants of t0 :: ts is shorter
+   than E.  The session survives the whole run iff every gap is below ExpireAfter; total
+   elapsed time does not matter, one gap of ExpireAfter or more ends it. *)
+Theorem c09_survives_iff_gaps : forall (E t0 : Z) (ts : list Z),
+  survives E t0 ts = true <-> gaps_below E t0 ts.
+Proof. exact survives_iff_gaps_lemma. Qed.
+Print Assumptions c09_survives_iff_gaps.
+
+(* and once it has failed to survive a prefix of the run, nothing later revives it *)
+Theorem c09_survives_prefix : forall (E t0 : Z) (a b : list Z),
+  survives E t0 (a ++ b) = true -> survives E t0 a = true.
+Proof. exact survives_app_lemma. Qed.
+Print Assumptions c09_survives_prefix.
